@@ -67,6 +67,19 @@ def run(R):
                     R.violation("C01.api", "%s|%s" % (g.spath.split("::")[-1], sn.split("::")[-1]),
                                 "%s applies a pattern through %s: only the leftmost match (captures) and a complete split are specified"
                                 % (g.path, sn), [c.loc()])
+    # the patterns are compiled verbatim: Regex::new(pattern), no builder flags that change what `.`/anchors match
+    tdn = R.need_fn("sqlgrep::data_model::TableDefinition::new")
+    for k in sorted(P.reachable([tdn])):
+        g = P.fns[k]
+        for c in g.calls:
+            sn = short(c.name)
+            if sn.startswith("regex::"):
+                if sn == "regex::regex::string::Regex::new":
+                    R.ok("C01.api", "TableDefinition::new|Regex::new", "pattern compiled verbatim", c.loc())
+                else:
+                    R.violation("C01.api", "TableDefinition::new|" + sn.split("::")[-1],
+                                "table patterns are compiled through %s: builder options (crlf, case_insensitive, multi_line, ...) change which text a "
+                                "group captures" % sn, [c.loc()])
     pin = R.need_fn("sqlgrep::data_model::ParsingInput::new")
     sp = [c for c in pin.calls if short(c.name) == "regex::regex::string::Regex::split"]
     ad = [c for c in pin.calls if re.search(r"Iterator::(take|skip|step_by|filter|rev|take_while|skip_while)$", short(c.name))]
